@@ -67,6 +67,10 @@ def emit_mir(repo, out, target=TARGET, log=None):
         subprocess.call(['rm', '-rf', fp])
     cmd = ['cargo', 'check', '--offline', '--bin', 'ckb-light-client']
     p = subprocess.run(cmd, cwd=repo, env=env, stdout=subprocess.PIPE, stderr=subprocess.STDOUT, text=True)
+    if (p.returncode != 0 or not os.path.exists(out)) and 'error[E' not in p.stdout and 'error: ' not in p.stdout.replace('error: could not compile', ''):
+        # not a compile error of the crate (lock contention, interrupted dependency check): one retry
+        time.sleep(2)
+        p = subprocess.run(cmd, cwd=repo, env=env, stdout=subprocess.PIPE, stderr=subprocess.STDOUT, text=True)
     if log:
         with open(log, 'w') as f:
             f.write(p.stdout)
